@@ -164,6 +164,67 @@ theorem readMessage_enc (m : Msg) (rest : Bytes) (hc : Canonical m) :
     simp only [readMessage]
     exact this
 
+/-! ### rejection: reason codes, magic/version, unknown type codes -/
+
+theorem sessTerm_accepts (f c : UInt8) (rest : Bytes) :
+    accepts (readMessage (u8 SESS_TERM :: f :: c :: rest)) = termValid c := by
+  have : readMessage (u8 SESS_TERM :: f :: c :: rest) = decSessTerm (u8 SESS_TERM :: f :: c :: rest) := by
+    simp only [readMessage]; rfl
+  rw [this]
+  unfold decSessTerm
+  rw [expectHeader_cons SESS_TERM _ _ (by decide)]
+  simp only [readU8]
+  cases termValid c <;> rfl
+
+theorem xferRefuse_accepts (c : UInt8) (tid : Nat) (rest : Bytes) :
+    accepts (readMessage (u8 XFER_REFUSE :: c :: (beBytes 8 tid ++ rest))) = refuseValid c := by
+  have : readMessage (u8 XFER_REFUSE :: c :: (beBytes 8 tid ++ rest)) =
+      decXferRefuse (u8 XFER_REFUSE :: c :: (beBytes 8 tid ++ rest)) := by
+    simp only [readMessage]; rfl
+  rw [this]
+  unfold decXferRefuse
+  rw [expectHeader_cons XFER_REFUSE _ _ (by decide)]
+  simp only
+  have : c :: (beBytes 8 tid ++ rest) = (c :: beBytes 8 tid) ++ rest := by simp
+  rw [this, takeN_append' 9 _ _ (by simp [beBytes_length])]
+  simp only [List.getD_cons_zero]
+  cases refuseValid c <;> rfl
+
+theorem reject_accepts (c h : UInt8) (rest : Bytes) :
+    accepts (readMessage (u8 MSG_REJECT :: c :: h :: rest)) = rejectValid c := by
+  have : readMessage (u8 MSG_REJECT :: c :: h :: rest) = decReject (u8 MSG_REJECT :: c :: h :: rest) := by
+    simp only [readMessage]; rfl
+  rw [this]
+  unfold decReject
+  rw [expectHeader_cons MSG_REJECT _ _ (by decide)]
+  simp only
+  have : c :: h :: rest = [c, h] ++ rest := by simp
+  rw [this, takeN_append' 2 _ _ (by simp)]
+  simp only [List.getD_cons_zero]
+  cases rejectValid c <;> rfl
+
+/-- Contact header: six bytes are read, then magic and version must be exactly "dtn!" 4. -/
+theorem contact_accepts (d rest : Bytes) (hd : d.length = 6) :
+    accepts (decContact (d ++ rest)) = decide (d.take 5 = contactHead) := by
+  unfold decContact
+  rw [takeN_append' 6 d rest hd]
+  simp only
+  by_cases h : d.take 5 = contactHead
+  · simp [h, accepts]
+  · simp [h, accepts]
+
+theorem contact_short (bs : Bytes) (h : bs.length < 6) : decContact bs = .error .eof := by
+  unfold decContact takeN
+  simp [h]
+
+theorem unknown_type (b : UInt8) (rest : Bytes)
+    (h : ¬ [SESS_INIT, SESS_TERM, XFER_SEGMENT, XFER_ACK, XFER_REFUSE, KEEPALIVE, MSG_REJECT, CONTACT].contains b.toNat) :
+    readMessage (b :: rest) = .error .unknownType := by
+  simp only [List.contains_cons, List.contains_nil, Bool.or_false, Bool.or_eq_true, beq_iff_eq, not_or] at h
+  simp only [readMessage]
+  obtain ⟨h1, h2, h3, h4, h5, h6, h7, h8⟩ := h
+  simp [h1, h2, h3, h4, h5, h6, h7, h8]
+
 theorem enc_ne_nil (m : Msg) : enc m ≠ [] := by
   cases m <;> simp [enc, contactHead]
 
